@@ -147,12 +147,57 @@ class MetricTranslator:
                     elif isinstance(later, ast.AugAssign) and isinstance(later.target, ast.Name) and later.target.id == "DISTANCES" \
                             and isinstance(later.value, ast.Dict):
                         adds = list(zip(later.value.keys, later.value.values))
+                    elif isinstance(later, ast.Assign) and any(isinstance(t, ast.Name) and t.id == "DISTANCES" for t in later.targets):
+                        # `DISTANCES = Wrapper(DISTANCES)`: the registry the models index is the wrapper; it must hand back the
+                        # very functions it was given
+                        try:
+                            self._check_registry_wrapper(later)
+                        except MetricViolation as exc:
+                            self.registry_problems = getattr(self, "registry_problems", []) + [str(exc)]
                     for k, v in adds or []:
                         if not (isinstance(k, ast.Constant) and isinstance(k.value, str)):
                             raise AnalysisError("an identifier added to DISTANCES is not a string literal")
                         out[k.value] = unparse(v)
                 return out
         raise AnalysisError("DISTANCES registry not found")
+
+    def _check_registry_wrapper(self, node: ast.Assign) -> None:
+        v = node.value
+        ok = isinstance(v, ast.Call) and isinstance(v.func, ast.Name) and len(v.args) == 1 and not v.keywords \
+            and isinstance(v.args[0], ast.Name) and v.args[0].id == "DISTANCES" and v.func.id in self.mi.classes
+        if not ok:
+            raise AnalysisError(f"DISTANCES is rebound at module level (line {node.lineno}) to something the registry rules cannot read")
+        ci = self.mi.classes[v.func.id]
+        get = ci.methods.get("__getitem__")
+        init = ci.methods.get("__init__")
+        if get is None or init is None or len(get.params) != 2:
+            raise AnalysisError(f"registry wrapper {ci.name}: __init__ / __getitem__ not found")
+        body = [st for st in get.node.body if not (isinstance(st, ast.Expr) and isinstance(st.value, ast.Constant))]
+        field = None
+        if len(body) == 1 and isinstance(body[0], ast.Return) and isinstance(body[0].value, ast.Subscript):
+            sub = body[0].value
+            if isinstance(sub.value, ast.Attribute) and isinstance(sub.value.value, ast.Name) and sub.value.value.id == "self" \
+                    and isinstance(sub.slice, ast.Name) and sub.slice.id == get.params[1]:
+                field = sub.value.attr
+        if field is None:
+            raise MetricViolation(f"{ci.name}.__getitem__:{get.node.lineno}: the registry wrapper does not hand back the stored "
+                                  f"function itself ('{unparse(body[-1])[:80] if body else '?'}'): DISTANCES[name] is no longer the "
+                                  "registered (decorated) metric")
+        # __init__ may only copy the entries it was given into that field
+        for n in ast.walk(init.node):
+            if isinstance(n, ast.Assign):
+                for t in n.targets:
+                    if isinstance(t, ast.Subscript) and isinstance(t.value, ast.Attribute) and t.value.attr == field:
+                        src_ok = isinstance(n.value, ast.Name)
+                        loops = [f for f in ast.walk(init.node) if isinstance(f, ast.For) and any(x is n for x in ast.walk(f))]
+                        src_ok = src_ok and bool(loops) and isinstance(loops[-1].target, ast.Tuple) and len(loops[-1].target.elts) == 2 \
+                            and all(isinstance(x, ast.Name) for x in loops[-1].target.elts) \
+                            and loops[-1].target.elts[1].id == n.value.id and isinstance(t.slice, ast.Name) \
+                            and t.slice.id == loops[-1].target.elts[0].id and isinstance(loops[-1].iter, ast.Call) \
+                            and isinstance(loops[-1].iter.func, ast.Attribute) and loops[-1].iter.func.attr == "items"
+                        if not src_ok:
+                            raise MetricViolation(f"{ci.name}.__init__:{n.lineno}: the registry wrapper stores "
+                                                  f"'{unparse(n.value)[:60]}' instead of the function it was given")
 
     def decorated(self, fi: FunctionInfo) -> bool:
         return any(d.split("(")[0].endswith("avoid_zero_division") for d in fi.decorators)
